@@ -3,10 +3,33 @@ P = dict(
     variants=['asan', 'memcheck'],
     memcheck_stride=dict(quick=100, thorough=40),
     level='exploration',
-    technique='runtime monitoring: reference-model oracle (__int128 value semantics) over the complete boundary lattice of all 36 integer type pairs plus random 64-bit values, ASan/UBSan build',
+    technique='runtime monitoring: reference-model oracle (__int128 value semantics) over the complete boundary lattice of all 36 integer type pairs plus random 64-bit values; by-reference values (strings, memory buffers) judged by libc strcmp/memcmp on the storage at comparison time over histories that rewrite the storage between set and compare; ASan/UBSan build',
     rule='cases: (type A, value A, type B, value B) for MockNamedValue::equals in both directions, (stored type, value, getter) inside a fixture test, double (a, b, tolerance) triples and a cross-type kind table; '
-         'the four lattice sections are enumerated completely. Non-trivial = integer pair/getter value outside int range or straddling a sign boundary, double pair with inf/NaN or within 2x tolerance, cross-type pair of different kinds or memory buffers; '
+         'by-reference histories: kind (string | memory buffer) x storage layout (separate | shared | overlapping at offset 1-3, either side constant or both rewritten) x 1-4 rounds of '
+         '[0-2 rewrites of the storage (same bytes, equal to / prefix of / extension of / one byte off the other side, extended behind the old terminator, truncated, same length other content, '
+         'a byte behind the given buffer length, random incl. zero and high-bit bytes), optional re-set (other buffer size), equals() 1-3 times in both directions (alternating, or all calls of one direction first), directly or through copies of the value objects], '
+         'value objects primed with an earlier value of another type; the same scenario through expectOneCall(...).withParameter / withStringParameter / withMemoryBufferParameter, '
+         '0-2 rewrites, actualCall inside a fixture (pass/fail judged); '
+         'the four lattice sections are enumerated completely. Non-trivial = integer pair/getter value outside int range or straddling a sign boundary, double pair with inf/NaN or within 2x tolerance, cross-type pair of different kinds or memory buffers, by-reference history with a comparison after a rewrite or with shared/overlapping storage; '
          'distinct by (types, values)',
     floor=dict(quick=5000, thorough=50000),
-    assumptions=['LP64 (long = 64 bit)', 'NULL C strings in values are not judged', 'negative double tolerances are not judged'],
+    counter_floor=dict(
+        quick=dict(byref_comparisons_string_storage_rewritten_to_another_length=3000, byref_comparisons_content_equal_after_rewrite_to_another_length=1000,
+                   byref_comparisons_content_differs_after_rewrite_to_another_length=2000, byref_comparisons_string_one_side_a_proper_prefix_of_the_other=1200,
+                   byref_comparisons_string_fresh_storage=700, byref_comparisons_memory_storage_rewritten_with_other_content_of_the_same_length=2000,
+                   byref_comparisons_memory_same_length_with_zero_bytes=1500, byref_comparisons_shared_storage=1500, byref_comparisons_overlapping_storage=1500,
+                   byref_comparisons_repeated_on_the_same_pair=6000, byref_comparisons_with_consecutive_calls_in_one_direction=6000, byref_comparisons_through_copied_value_objects=1500,
+                   mock_byref_calls_content_equal=400, mock_byref_calls_content_differs=700, mock_byref_calls_content_equal_after_rewrite_to_another_length=100,
+                   mock_byref_calls_content_differs_after_rewrite_to_another_length=200),
+        thorough=dict(byref_comparisons_string_storage_rewritten_to_another_length=200000, byref_comparisons_content_equal_after_rewrite_to_another_length=60000,
+                      byref_comparisons_content_differs_after_rewrite_to_another_length=130000, byref_comparisons_string_one_side_a_proper_prefix_of_the_other=70000,
+                      byref_comparisons_string_fresh_storage=40000, byref_comparisons_memory_storage_rewritten_with_other_content_of_the_same_length=130000,
+                      byref_comparisons_memory_same_length_with_zero_bytes=90000, byref_comparisons_shared_storage=100000, byref_comparisons_overlapping_storage=100000,
+                      byref_comparisons_repeated_on_the_same_pair=340000, byref_comparisons_with_consecutive_calls_in_one_direction=340000, byref_comparisons_through_copied_value_objects=100000,
+                      mock_byref_calls_content_equal=10000, mock_byref_calls_content_differs=20000, mock_byref_calls_content_equal_after_rewrite_to_another_length=3000,
+                      mock_byref_calls_content_differs_after_rewrite_to_another_length=6000)),
+    assumptions=['LP64 (long = 64 bit)', 'NULL C strings in values are not judged', 'negative double tolerances are not judged',
+                 'a string / memory-buffer value holds the caller\'s pointer: "content" is what the storage holds when equals() runs (or, through the mock, when the actual parameter is passed); '
+                 'the storage stays alive and NUL-terminated within its capacity for the whole history',
+                 'through the mock only pass / fail of the test is judged, not the failure text'],
 )
